@@ -1,7 +1,7 @@
 """Scenario harness for the AES-CCM authentication managers (real submit/flush machine code + the real CBC-MAC kernels), same form as
 props/asm_cmac.py.  Reference (RFC 3610 / SP 800-38C): B0 = flags | nonce | message length, optional AAD block(s) = 2-byte length |
 AAD | zero padding, payload blocks zero padded; T = CBC-MAC with a zero IV; tag = leading M bytes of T xor E_K(A0), A0 = (L-1) | nonce
-| zero counter - all over uninterpreted AES rounds.  Encrypt direction (the authenticated payload is the job's source range).
+| zero counter - all over uninterpreted AES rounds.  Both directions (encrypt: the authenticated payload is the job's source range; decrypt: what the cipher stage wrote to dst).
 Serves C04 (lanes independent), C07 (exact-size nonce/AAD/payload/tag objects), C13 (init blocks, IV slots, key tables wiped), C14
 (descriptor write set); the tag obligation is also what C03 says about CCM, but C03 is not claimed (see DESIGN I.6)."""
 import os, time
@@ -93,7 +93,9 @@ def run_scenario(ctx, variant, bits, jobs_spec, safe_data=True, res=None, sabota
     tx = Region('text', obj.TEXT_BASE, max(1, len(obj.text_bytes)), False, obj.text_bytes)
     st.regions = [mgr, jobs, stk, ro, tx]
     J = []
-    for i, (L, A, N, T) in enumerate(jobs_spec):
+    for i, js_ in enumerate(jobs_spec):
+        L, A, N, T = js_[:4]
+        dec = len(js_) > 4 and js_[4] == 'dec'     # decrypt: the cipher stage ran first, the authenticated payload is what it wrote to dst
         base = DATA + i * SPAN
         rmsg = Region('msg%d' % i, base + 3, max(L - (1 if sabotage == 'shrink' and i == 0 else 0), 1), writable=False, secret=True)
         raad = Region('aad%d' % i, base + 0x4000, max(A, 1), writable=False)
@@ -102,12 +104,12 @@ def run_scenario(ctx, variant, bits, jobs_spec, safe_data=True, res=None, sabota
         rtag = Region('tag%d' % i, base + 0x12000, T)
         st.regions += [rmsg, raad, rnon, rks, rtag]
         oj = i * O['JOB_SZ']
-        for f, v in (('J_src', base), ('J_dst', base + 0x8000), ('J_hoff', 3), ('J_hlen', L), ('J_tag', rtag.base), ('J_taglen', T), ('J_key', rks.base), ('J_iv', rnon.base), ('J_ivlen', N),
+        for f, v in (('J_src', base + 0x9000 if dec else base), ('J_dst', base + 3 if dec else base + 0x8000), ('J_hoff', 3), ('J_hlen', L), ('J_tag', rtag.base), ('J_taglen', T), ('J_key', rks.base), ('J_iv', rnon.base), ('J_ivlen', N),
                      ('J_aad', raad.base if A else 0), ('J_aadlen', A)):
             for k in range(8):
                 jobs.bytes[oj + O[f] + k] = BitVecVal((v >> (8 * k)) & 0xff, 8)
         for k in range(4):
-            jobs.bytes[oj + O['J_dir'] + k] = BitVecVal((1 >> (8 * k)) & 0xff, 8)      # IMB_DIR_ENCRYPT
+            jobs.bytes[oj + O['J_dir'] + k] = BitVecVal(((2 if dec else 1) >> (8 * k)) & 0xff, 8)      # IMB_DIR_DECRYPT / IMB_DIR_ENCRYPT
         J.append(dict(addr=JOBS + oj, off=oj))
     snap = {r.name: r.clone() for r in st.regions}
     stat0 = [rd(jobs, j['off'] + O['J_status'], 4) for j in J]
@@ -154,7 +156,7 @@ def run_scenario(ctx, variant, bits, jobs_spec, safe_data=True, res=None, sabota
         for i, j in enumerate(J):
             if j['addr'] not in rets:
                 continue
-            L, A, N, T = jobs_spec[i]
+            L, A, N, T = jobs_spec[i][:4]
             msg = [snap['msg%d' % i].get(k) for k in range(L)] if not (sabotage == 'shrink' and i == 0) else [snap['msg0'].get(k) for k in range(L - 1)] + [BitVecVal(0, 8)]
             aad = [snap['aad%d' % i].get(k) for k in range(A)]
             non = [snap['non%d' % i].get(k) for k in range(N)]
@@ -169,7 +171,7 @@ def run_scenario(ctx, variant, bits, jobs_spec, safe_data=True, res=None, sabota
                 r = unsat
             else:
                 r, m = E.check(f, Or(*[g != e for g, e in zip(got, exp)]))
-            res.obl.append((pre + 'C03 job %d (msg %d, AAD %d, nonce %d, tag %d): tag == AES-%d-CCM authentication value (B0/AAD/payload formatting, CBC-MAC, xor E(A0)) over uninterpreted rounds' % (i, L, A, N, T, bits),
+            res.obl.append((pre + 'C03 job %d (msg %d, AAD %d, nonce %d, tag %d%s): tag == AES-%d-CCM authentication value (B0/AAD/payload formatting, CBC-MAC, xor E(A0)) over uninterpreted rounds' % (i, L, A, N, T, ', decrypt' if len(jobs_spec[i]) > 4 else '', bits),
                             (True if r == unsat else (False if r == sat else None)), str(r), time.time() - t1))
             if r == sat:
                 res.viol.append(('C03:%s:job%d:tag' % (name, i), 'CCM tag of job %d (msg %d, AAD %d, nonce %d, tag %d) differs from the specification' % (i, L, A, N, T)))
@@ -242,6 +244,7 @@ def scenarios(variant, quick):
             js.append(pool[(i + n + k) % len(pool)])
             k += 1
         out.append(dict(jobs_spec=js))
+    out.append(dict(jobs_spec=[(23, 10, 7, 16, 'dec'), (16, 0, 13, 4), (37, 46, 12, 10, 'dec'), (33, 17, 8, 6, 'dec')]))     # decrypt direction mixed with encrypt
     for j in sorted(set([0, nl - 1, nl // 2, min(nl - 1, nl // 2 + 1)])):           # position of the strictly smallest lane
         js = [(16 * (4 + (i % 3)) + (i % 2) * 5, 6 * (i % 3), 7 + (i % 7), 4 + 2 * (i % 7)) for i in range(nl)]
         js[j] = (7, 0, 13, 8)
@@ -275,7 +278,7 @@ def run_family(ctx, prop):
         tasks.append(('sse', 128, dict(jobs_spec=[(23, 10, 7, 16), (16, 0, 13, 4)], safe_data=False, sabotage='nosafe')))
     want = {'C03': (' C03 ',), 'C04': (' C03 job', ' C05 '), 'C07': (' C07 ',), 'C13': (' C13 ',), 'C14': (' C14 ',)}[prop]
     ctx.bounds['ccm_managers'] = ('submit/flush_job_aes{128,256}_ccm_auth_{x8_sse, avx, vaes_avx512} with their real CBC-MAC kernels from the image of the real reset routine; scripts of lanes+1 submits '
-                                  'then flushes; payload 0..100 bytes (thorough 257), AAD 0..46, nonce 7..13, tag 4..16 (even); encrypt direction; payload, AAD, nonce, round keys symbolic')
+                                  'then flushes; payload 0..100 bytes (thorough 257), AAD 0..46, nonce 7..13, tag 4..16 (even); both directions; payload, AAD, nonce, round keys symbolic')
     with Pool(min(NCPU, max(1, len(tasks)))) as pool:
         for r in pool.imap_unordered(_task, tasks):
             ctx.solver_s += r['solver_s']
